@@ -683,8 +683,8 @@ func init() {
 				for _, v := range vars {
 					for n := 0; n <= maxN; n++ {
 						dom := "case"
-						if tier == "thorough" {
-							dom = "quick"
+						if tier == "thorough" && n <= 2 {
+							dom = "quick" // the larger clipped domain for the short texts only (case maps make every query expensive)
 						}
 						us = append(us, Unit{ID: fmt.Sprintf("C20/%s/%s/n%d", base, v, n), Harness: "icase", Domain: dom, Params: map[string]string{"pattern": base, "pattern_flipped": v,
 							"options": itoa(patterns.OptI), "copts": "", "n": itoa(n), "key_extra": v}})
